@@ -260,7 +260,7 @@ class C06(Check):
             raise HarnessError("reference reader disagrees with its writer: %r" % (P.violations[:3],))
         fs = None
         env.state["k"] += 1
-        work = os.path.join(env.scratch, "c6-%d" % env.state["k"])
+        work = env.tmpdir("c6-")
         os.makedirs(work, exist_ok=True)
         try:
             apath = os.path.join(work, "a.7z")
